@@ -13,22 +13,46 @@ abbrev Set := List Nat   -- strictly ascending
 
 def Sorted (s : List Nat) : Prop := s.Pairwise (· < ·)
 
-/-- membership of `x` in the range described by two bounds -/
-def Bound.mem (lo hi : Bound) (x : Nat) : Prop :=
-  (match lo with | .incl s => s ≤ x | .excl s => s < x | .unb => True) ∧
-  (match hi with | .incl e => x ≤ e | .excl e => x < e | .unb => True)
+/-- `x` is admitted by a lower bound -/
+def Bound.admitsLo : Bound → Nat → Prop
+  | .incl s, x => s ≤ x
+  | .excl s, x => s < x
+  | .unb, _ => True
 
+/-- `x` is admitted by an upper bound -/
+def Bound.admitsHi : Bound → Nat → Prop
+  | .incl e, x => x ≤ e
+  | .excl e, x => x < e
+  | .unb, _ => True
+
+/-- membership of `x` in the range described by two bounds -/
+def Bound.mem (lo hi : Bound) (x : Nat) : Prop := Bound.admitsLo lo x ∧ Bound.admitsHi hi x
+
+instance (lo : Bound) (x : Nat) : Decidable (Bound.admitsLo lo x) := by
+  cases lo <;> unfold Bound.admitsLo <;> exact inferInstance
+instance (hi : Bound) (x : Nat) : Decidable (Bound.admitsHi hi x) := by
+  cases hi <;> unfold Bound.admitsHi <;> exact inferInstance
 instance (lo hi : Bound) (x : Nat) : Decidable (Bound.mem lo hi x) := by
-  unfold Bound.mem; cases lo <;> cases hi <;> exact inferInstance
+  unfold Bound.mem; exact inferInstance
+
+/-- smallest value admitted by a lower bound -/
+def lower : Bound → Nat
+  | .incl s => s
+  | .excl s => s + 1
+  | .unb => 0
+
+/-- largest value `≤ maxV` admitted by an upper bound (`none`: nothing is admitted) -/
+def upper (maxV : Nat) : Bound → Option Nat
+  | .incl e => some (min e maxV)
+  | .excl 0 => none
+  | .excl (e + 1) => some (min e maxV)
+  | .unb => some maxV
 
 /-- the inclusive interval `[a, b]` of values `≤ maxV` selected by the bounds, `none` if empty -/
 def interval (maxV : Nat) (lo hi : Bound) : Option (Nat × Nat) :=
-  let a := match lo with | .incl s => s | .excl s => s + 1 | .unb => 0
-  match hi with
-  | .excl 0 => none
-  | _ =>
-    let b := match hi with | .incl e => min e maxV | .excl e => min (e - 1) maxV | .unb => maxV
-    if a ≤ b then some (a, b) else none
+  match upper maxV hi with
+  | none => none
+  | some b => if lower lo ≤ b then some (lower lo, b) else none
 
 def contains (s : Set) (v : Nat) : Bool := s.contains v
 def insert (s : Set) (v : Nat) : Set × Bool :=
